@@ -17,6 +17,7 @@
    pr.BoolString{Bool, String}               VBoolStr b s
    pr.Decorations                            VDecor bits
    pr.Point{d1, d2}                          VPoint v1 u1 v2 u2
+   pr.Marks{Crop, Cross}                     VMarks crop cross
    anything else                             VOpaque id *)
 From Coq Require Export QArith ZArith NArith String Bool.
 
@@ -30,6 +31,7 @@ Inductive value : Type :=
 | VBoolStr (b : bool) (s : string)
 | VDecor (bits : N)
 | VPoint (v1 : Q) (u1 : N) (v2 : Q) (u2 : N)
+| VMarks (crop cross : bool)
 | VOpaque (id : N).
 
 (* equality up to Qeq on the rational components *)
@@ -45,6 +47,7 @@ Definition value_eqb (a b : value) : bool :=
   | VDecor x, VDecor y => N.eqb x y
   | VPoint a u b w, VPoint a' u' b' w' =>
       Qeq_bool a a' && N.eqb u u' && Qeq_bool b b' && N.eqb w w'
+  | VMarks a b, VMarks a' b' => Bool.eqb a a' && Bool.eqb b b'
   | VOpaque i, VOpaque j => N.eqb i j
   | _, _ => false
   end.
@@ -59,4 +62,5 @@ Inductive value_eq : value -> value -> Prop :=
 | VEBoolStr b s : value_eq (VBoolStr b s) (VBoolStr b s)
 | VEDecor x : value_eq (VDecor x) (VDecor x)
 | VEPoint a a' u b b' w : a == a' -> b == b' -> value_eq (VPoint a u b w) (VPoint a' u b' w)
+| VEMarks a b : value_eq (VMarks a b) (VMarks a b)
 | VEOpaque i : value_eq (VOpaque i) (VOpaque i).
